@@ -35,8 +35,9 @@ class PhaseGen:
     """Generates one phase as a builder program in which no expression reads storage that is
     unset at that moment (H-def): `avail` tracks what is certainly assigned."""
 
-    def __init__(self, rng, phase_names, avail_persist, raising):
+    def __init__(self, rng, phase_names, avail_persist, raising, pow_nodes=False):
         self.rng = rng
+        self.pow_nodes = pow_nodes
         self.names = phase_names
         self.prog = []
         self.avail = set(avail_persist) | {"<t>", "<dt>"}
@@ -47,7 +48,7 @@ class PhaseGen:
         ints = [v for v in pool if v in self.avail and v not in PERSIST_ARR]
         arrs = [v for v in PERSIST_ARR if v in self.avail]
         funcs = FUNCS if self.raising else [f for f in FUNCS if "raise" not in f]
-        return lang.Gen(self.rng, ints or ["<t>"], arrs, [], funcs)
+        return lang.Gen(self.rng, ints or ["<t>"], arrs, [], funcs, pow_nodes=self.pow_nodes)
 
     def stmt(self, depth):
         r = self.rng
@@ -131,13 +132,17 @@ class PhaseGen:
                 self.stmt(depth)
 
 
-def gen_dag(rng, raising=False):
+def has_pow(case):
+    return '"pow"' in json.dumps(case["phases"])
+
+
+def gen_dag(rng, raising=False, pow_nodes=False):
     nph = rng.choice([1, 1, 2, 2, 3])
     names = rng.sample(["main", "alpha", "zeta", "init2"], nph)
     avail = {"<state>u", "<state>v", "<state>b"}
     phases = []
     for i, nm in enumerate(names):
-        pg = PhaseGen(rng, names, avail, raising)
+        pg = PhaseGen(rng, names, avail, raising, pow_nodes)
         if i == 0:
             pg.prog.append(["stmt", ["assign", "<p>n", None, ["int", rng.randint(0, 3)], []]])
             pg.avail.add("<p>n")
@@ -211,7 +216,8 @@ def persistent_names(case):
                 names |= {v for v in c02.stmt_vars(c[1]) if v.startswith("<")}
             if c[0] == "if":
                 names |= {v for v in lang.expr_vars(c[1]) if v.startswith("<")}
-    names |= {"<state>" + k for k in case["init"]}
+    # persistent variables the program never mentions are not stored by the generated class at all
+    # (set_up copies only the names the generator has seen); they cannot influence any event
     return sorted(n for n in names if not n.startswith("<cond>") and not n.startswith("<func>"))
 
 
@@ -487,7 +493,7 @@ def main(tier):
     ps = common.proof_stage(rep, PID, gen=["lang"])
     rng = random.Random(seed * 7727 + 1)
     n = 150 if tier == "quick" else 3000
-    cases = corpus() + [gen_dag(rng) for _ in range(n)]
+    cases = corpus() + [gen_dag(rng, pow_nodes=(i % 4 == 3)) for i in range(n)]
 
     failing = {}
     terms, tidx = [], []
@@ -501,8 +507,8 @@ def main(tier):
             key = o["kind"]
             if key not in failing or len(json.dumps(case)) < len(json.dumps(failing[key][0])):
                 failing[key] = (case, o)
-        use_i = ri if in_universe(ri) else None
-        use_g = rg if (hdef and in_universe(rg)) else None
+        use_i = ri if in_universe(ri) and not has_pow(case) else None
+        use_g = rg if (hdef and in_universe(rg)) and not has_pow(case) else None
         if use_i is not None or use_g is not None:
             fuel = attempts(ri) + (1 if ri["end"][0] != "cut" else 0)
             if use_g is not None and attempts(rg) != attempts(ri):
